@@ -1,4 +1,4 @@
-import H2V.Lemmas.ConnWakePTask2
+import H2V.Lemmas.ConnWakePPush
 /-
   C06 — progress: no lost wake-up.  Property theorems only; lemmas and definitions in
   `H2V/Lemmas/ConnWakeP*.lean` (see ConnWakePNOTES.md).
@@ -271,6 +271,77 @@ theorem user_ping_wakes (c : Conn) (u : UserPings) (hu : c.pingPong.userPings = 
 
 example : ((Conn.init {}).takeUserPings.1).pingPong.userPings = some {} := by decide
 
+/-- **F32 (positive), the step the repair added**: when the receive side of a stream has ended,
+    `notify_push_if_recv_ended` (called by `recv_headers` and `recv_data` right after `notify_recv`) leaves
+    `push_task` empty and the tag that was parked there (`PushPromises::poll_push_promise`) is in the wake log. -/
+theorem end_stream_step_wakes_push_waiter (s : Streams) (k : Nat) (a : Stream) (ha : s.store.get? k = some a)
+    (he : a.state.isRecvEndStream = true) :
+    ((s.notifyPushIfRecvEnded k).stream k).pushTask = none ∧
+    ∀ t, a.pushTask = some t → t ∈ newWakes s (s.notifyPushIfRecvEnded k) :=
+  notifyPushIfRecvEnded_post ha he
+
+example : (W3.h5.stream 0).state.isRecvEndStream = true := by decide
+
+/-- F32 (positive), trailers: `recv_trailers` (always END_STREAM) that is accepted leaves `push_task` empty and
+    has woken the tag parked there — for every state with bounded keys (every reachable state), any trailers. -/
+theorem trailers_wake_push_waiter (s : Streams) (k : Nat) (h : HeadersIn) (a : Stream) (hb : KeysBounded s.store)
+    (ha : s.store.get? k = some a) (hok : (s.recvRecvTrailers k h).2 = .ok ()) :
+    ((s.recvRecvTrailers k h).1.stream k).pushTask = none ∧
+    ∀ t, a.pushTask = some t → t ∈ newWakes s (s.recvRecvTrailers k h).1 :=
+  recvRecvTrailers_wakes_push hb ha hok
+
+example : (W3.p4.recvRecvTrailers 0 { sid := 1, eos := true, status := none }).2 = .ok () ∧
+    (W3.p4.stream 0).pushTask = some "q0" := by decide
+
+/-- F32 (positive), END_STREAM on DATA and on the response head — on the witnesses (client, default builder,
+    reached from `Conn.init {}` through the model API): `q0` parked in `poll_pushed` is woken, the slot is
+    empty, and a new poll answers "no more".  (General theorems: `end_stream_step_wakes_push_waiter` for the
+    step, `data_end_stream_wakes_push_waiter` for `recv_data` as a whole, `trailers_wake_push_waiter`.) -/
+theorem end_stream_wakes_push_waiter_examples :
+    ((W3.p4.stream 0).pushTask = some "q0" ∧ (W3.p5.stream 0).state.isRecvEndStream = true ∧ "q0" ∈ W3.p5.wakes ∧
+      (W3.p5.stream 0).pushTask = none) ∧
+    ((W3.h4.stream 0).pushTask = some "q0" ∧ "q0" ∈ W3.h5.wakes ∧ (W3.h5.stream 0).pushTask = none) :=
+  ⟨⟨W3.data_end_stream_wakes_push_example.2.1, W3.data_end_stream_wakes_push_example.2.2.1,
+    W3.data_end_stream_wakes_push_example.2.2.2.1, W3.data_end_stream_wakes_push_example.2.2.2.2.1⟩,
+   W3.headers_end_stream_wakes_push_example⟩
+
+/-- **F32 (positive), DATA with END_STREAM — `recv_data` as a whole.**  Whenever `recv_data(.., END_STREAM)` answers
+    `Ok` (no panic flag) on a stream whose receive side had not ended and has ended in the result, `push_task` is
+    empty and the tag that was parked there (`poll_pushed`) is in the part of the wake log the call wrote — on
+    EVERY `Ok` path, including the early return for a dropped `RecvStream` (`!stream.is_recv`).  That path was
+    FINDING W3, found with this model as a counterexample to this very statement and repaired by 334158d. -/
+theorem data_end_stream_wakes_push_waiter (s : Streams) (k : Nat) (p : Bytes) (pad : Option Nat) (a : Stream)
+    (hb : KeysBounded s.store) (ha : s.store.get? k = some a) (hne : a.state.isRecvEndStream = false)
+    (hok : (s.recvRecvData k p true pad).2 = .ok ()) (hp : (s.recvRecvData k p true pad).1.panicked = none)
+    (he : ((s.recvRecvData k p true pad).1.stream k).state.isRecvEndStream = true) :
+    ((s.recvRecvData k p true pad).1.stream k).pushTask = none ∧
+    ∀ t, a.pushTask = some t → t ∈ newWakes s (s.recvRecvData k p true pad).1 :=
+  recvRecvData_eos_wakes_push hb ha hne hok hp he
+
+/-- non-vacuity, on the old W3 witness: body handle dropped, `q0` parked in `poll_pushed`, DATA+END_STREAM: woken -/
+theorem data_end_stream_after_dropped_body_wakes_push_example :
+    (W3.d5.stream 0).pushTask = some "q0" ∧ (W3.d5.stream 0).isRecv = false ∧
+    (W3.d5.recvData 1 [1, 2, 3] true none).2 = .ok () ∧
+    (W3.d6.stream 0).state.isRecvEndStream = true ∧ "q0" ∈ W3.d6.wakes ∧ (W3.d6.stream 0).pushTask = none :=
+  W3.dropped_body_end_stream_wakes_push_example
+
+example : (W3.d5.stream 0).state.isRecvEndStream = false ∧ (W3.d5.recvRecvData 0 [1, 2, 3] true none).2 = .ok () ∧
+    (W3.d5.recvRecvData 0 [1, 2, 3] true none).1.panicked = none ∧
+    ((W3.d5.recvRecvData 0 [1, 2, 3] true none).1.stream 0).state.isRecvEndStream = true := by decide
+
+/-- **(A) `poll_pushed`**: `Pending` ⇒ the caller is parked in `push_task`, no promised stream is queued and the
+    receive side is still open; once the receive side has ended (or the stream is closed) it never waits. -/
+theorem poll_pushed_pending_is_registered (s s' : Streams) (k : Nat) (tag : String) (a : Stream)
+    (ha : s.store.get? k = some a) :
+    (s.refPollPushed k tag = (s', .pending) →
+      (s'.stream k).pushTask = some tag ∧ a.pendingPushPromises = [] ∧ a.state.ensureRecvOpen = .ok true ∧
+      s'.wakes = s.wakes) ∧
+    ((a.state.isRecvEndStream = true ∨ a.state.isClosed = true) → ∀ s'', s.recvPollPushed k tag ≠ (s'', .pending)) :=
+  ⟨refPollPushed_pending ha, fun h => recvPollPushed_ended (by rw [stream_eq_of_get? ha]; exact h)⟩
+
+example : (match (W3.p3.refPollPushed 0 "q0").2 with | .pending => true | _ => false) = true :=
+  W3.data_end_stream_wakes_push_example.1
+
 end H2V.Props.C06
 
 #print axioms H2V.Props.C06.no_waker_dropped_silently
@@ -293,3 +364,9 @@ end H2V.Props.C06
 #print axioms H2V.Props.C06.connection_poll_pending_is_parked
 #print axioms H2V.Props.C06.poll_complete_ready_is_parked
 #print axioms H2V.Props.C06.user_ping_wakes
+#print axioms H2V.Props.C06.end_stream_step_wakes_push_waiter
+#print axioms H2V.Props.C06.trailers_wake_push_waiter
+#print axioms H2V.Props.C06.end_stream_wakes_push_waiter_examples
+#print axioms H2V.Props.C06.data_end_stream_wakes_push_waiter
+#print axioms H2V.Props.C06.data_end_stream_after_dropped_body_wakes_push_example
+#print axioms H2V.Props.C06.poll_pushed_pending_is_registered
